@@ -3,6 +3,9 @@ LIST relics = chalice, sword, (crown)
 LIST tools = (hammer), saw, sword
 VAR held = sword
 VAR other = axe
+VAR seen = (sword)
+VAR pair = (sword, saw)
+VAR mix = (weapons.axe, relics.sword, tools.saw)
 Held {held}.
 All {LIST_ALL(held)}.
 Inverse {LIST_INVERT(held)}.
@@ -15,4 +18,13 @@ Other {other} min {LIST_MIN(other)} max {LIST_MAX(other)}.
   ~ held = ()
   Nothing {held}.
 - Count {LIST_COUNT(LIST_ALL(other))}.
+~ seen += (sword, crown)
+~ pair -= (saw)
+Seen {seen} of {LIST_ALL(seen)} value {LIST_VALUE(LIST_MIN(seen))}.
+Pair {pair} {pair ? (sword)} {(sword) == held}.
+Mix {mix} max {LIST_MAX(mix)} min {LIST_MIN(mix)}.
+~ mix -= LIST_MAX(mix)
+Left {mix} then {LIST_MIN(mix)}.
+~ mix -= LIST_MIN(mix)
+Last {mix}.
 -> END
